@@ -19,6 +19,7 @@ import (
 	"net/http"
 	"net/http/httptest"
 	"net/url"
+	"sort"
 	"strconv"
 	"strings"
 	"sync"
@@ -1202,6 +1203,74 @@ func TestVerifC12Shutdown(t *testing.T) {
 		en.Rec.Observe(r, []string{fmt.Sprintf("h2:%v", r.H2), fmt.Sprintf("tls:%v", r.TLS), "procedure:" + r.Procedure}, true)
 		if viol != nil && en.Fail(r, viol) {
 			break
+		}
+	}
+	en.Done(true)
+}
+
+// TestVerifC12MethodProtocol: the protocol aspect is judged by what the request says it is (its content type), for
+// either HTTP method: every content type (none, Connect unary / streaming, gRPC, gRPC-Web, with and without codec
+// suffix) × GET and POST × every expected protocol → a line "expected protocol ..." exactly when the expected
+// protocol is not the request's (a GET without any of the gRPC content types is a Connect request). Other aspects
+// (method, codec, ...) produce their own lines, which are not judged here.
+func TestVerifC12MethodProtocol(t *testing.T) {
+	en := verifkit.NewEnum(t, "C12MethodProtocol")
+	type row struct {
+		Method      string `json:"method"`
+		ContentType string `json:"contentType"`
+		Expected    int    `json:"expectedProtocol"`
+	}
+	cts := map[string]int{"": 0, "application/proto": 1, "application/json": 1, "application/connect+proto": 1, "application/grpc": 2, "application/grpc+proto": 2, "application/grpc+json": 2,
+		"application/grpc-web": 3, "application/grpc-web+proto": 3, "application/grpc-web+json": 3}
+	var names []string
+	for ct := range cts {
+		names = append(names, ct)
+	}
+	sort.Strings(names)
+	for _, method := range []string{http.MethodGet, http.MethodPost} {
+		for _, ct := range names {
+			for expected := 1; expected <= 3; expected++ {
+				r := row{method, ct, expected}
+				actual := cts[ct]
+				if actual == 0 {
+					if method != http.MethodGet {
+						continue // a POST without content type has no protocol at all (reported as such): not judged
+					}
+					actual = 1
+				}
+				target := "/connectrpc.conformance.v1.ConformanceService/Unary"
+				if method == http.MethodGet {
+					target += "?encoding=proto&connect=v1&message="
+				}
+				req := httptest.NewRequest(method, target, bytes.NewReader(nil))
+				if ct != "" {
+					req.Header.Set("Content-Type", ct)
+				}
+				req.Header.Set("X-Test-Case-Name", "verif/c12mp")
+				req.Header.Set("X-Expect-Http-Version", "1")
+				req.Header.Set("X-Expect-Http-Method", method)
+				req.Header.Set("X-Expect-Protocol", strconv.Itoa(expected))
+				req.Header.Set("X-Expect-Codec", "1")
+				req.Header.Set("X-Expect-Compression", "1")
+				req.Header.Set("X-Expect-Tls", "false")
+				printer := &vfRecPrinter{}
+				referenceServerChecks(http.HandlerFunc(func(w http.ResponseWriter, _ *http.Request) { w.WriteHeader(200) }), printer).ServeHTTP(httptest.NewRecorder(), req)
+				flagged := false
+				for _, l := range printer.lines {
+					if strings.Contains(l, "expected protocol") {
+						flagged = true
+					}
+				}
+				var viol error
+				if want := expected != actual; flagged != want {
+					viol = verifkit.Violf(map[bool]string{true: "mismatch-not-flagged:protocol", false: "match-flagged:protocol"}[want], "%s request with content type %q (protocol %d), expected protocol %d: protocol feedback %v, want %v; lines %q", method, ct, actual, expected, flagged, want, printer.lines)
+				}
+				en.Rec.Observe(r, []string{"method:" + method, fmt.Sprintf("protocol:%d", actual)}, method == http.MethodGet && actual != 1)
+				if viol != nil && en.Fail(r, viol) {
+					en.Done(true)
+					return
+				}
+			}
 		}
 	}
 	en.Done(true)
